@@ -76,7 +76,7 @@ cScalarsQ == {VS(<<>>), VS(<<"<", "&", "l", "t", ";">>), VS(<<"]", "]", ">">>), 
 cConts == {EmptyMap, EmptyList}
 \* lists inside lists (flattened in list order, whatever follows them): one key, two scalars, up to three members a list
 cKeysN == {<<"a">>}
-cScalarsN == {VS(<<"y">>), VF(<<"1", ".", "5">>)}
+cScalarsN == {VS(<<"y">>), VF(<<"1", ".", "5">>), VF(<<"-", "0">>)}      \* (negative zero is written -0: the number as %v renders it)
 cContsN == {EmptyList}
 \* two attribute entries on one element, empty and non-empty values (whatever order the runtime visits them in)
 cKeysA2 == {<<"a">>, Cs1(AP) \o <<"x">>, Cs1(AP) \o <<"y">>, Cs1(AP) \o <<"z">>}
